@@ -145,9 +145,18 @@ func Run(ctx *core.Ctx) {
 		"upstream proxy (ok, dial failure, rejection incl. 101), requests whose CONNECT the upstream proxy rejects inside the proxy's transport (GET https:// and inside an intercepted session), MITM hand-off with requests inside, 101 upgrade tunnels, client aborts while uploading / " +
 		"downloading / before reading the response (RST and FIN), EOF and garbage before a request, keep-alive reuse; tunnel ends by close/FIN/RST; " +
 		"plus cases on the exported Listener/Dialer: 1-6 accepted and 0-4 dialled connections with byte transfers, each closed by 1-4 goroutines at once " +
-		"(some twice), refused dials, Accept on a closed listener; non-trivial = anything but a single plain request; distinct = distinct case description")
+		"(some twice), refused dials, Accept on a closed listener; " +
+		"plus conntrack.Builder over connections of every kind (net.Pipe = Close returns nil every time, TCP, TCP closed underneath the tracker = net.ErrClosed every time, " +
+		"scripted connections whose Close returns nil / net.ErrClosed / another error call by call and whose Read/Write/ReadFrom return scripted (n, err) incl. n > 0 with an error), " +
+		"1-4 goroutines closing at once; plus forwarder.Listener in every stacking (plain, TLS, PROXY protocol, rate limit and their combinations) and forwarder.Dialer with connections ended by the " +
+		"stack itself (PROXY header never sent / not a header, TLS handshake fed garbage / never started), by the peer (FIN, RST) and by the server, raw bytes counted at the peer below TLS; " +
+		"plus interrupted I/O on tracked connections (Write / io.Copy=ReadFrom of 16 MiB cut by a write deadline against a peer that does not read or by the peer's reset; Read / io.Copy out cut by a " +
+		"read deadline or the peer's reset) on every stacking and on dialled connections; plus the real proxy with TrackTraffic, a WriteTimeout and tracked dials: 16 MiB downloads (Content-Length and chunked) " +
+		"cut by the write timeout against a client that does not read or by the client's reset, 8 MiB uploads and tunnels cut by the target's / client's reset, PROXY-protocol clients that send a good header, " +
+		"none, garbage, or reset after it; non-trivial = anything but a single plain request; distinct = distinct case description")
 	ctx.Assume("sync.Once.Do is modelled as an atomic check-and-run; the Go scheduler, TCP and the Prometheus client are not modelled")
 	ctx.Assume("real schedules are sampled: each round is one interleaving chosen by the scheduler; gauges are observed at gather points only (quiescent point = registry equal to the model's counters and connection gauges 0 on three consecutive polls, waited for at most 12 s)")
+	ctx.Assume("bytes on the wire are counted at the harness's end of each connection: equal to the observer once that end has read to the FIN, a lower bound for the observer's Tx (an upper bound for its Rx) when the connection ended in a reset (bytes the kernel had accepted may be lost); on connections without TLS above the tracker the observer is also compared exactly with the n the calls returned")
 	ctx.Assume("paths not reachable from outside and therefore covered by the theorems only: tunnel drain failure, 101 with a non-writable body, write failure of the MITM 200, the shutdown path")
 	pool := newWorldPool(ctx)
 	defer pool.closeAll()
@@ -159,14 +168,20 @@ func Run(ctx *core.Ctx) {
 	type job struct {
 		rc *roundCase
 		lc *listenerCase
+		x  func()
 	}
 	jobs := make(chan job, 32)
+	var extras []func()
 	var wg sync.WaitGroup
 	for w := 0; w < 6; w++ {
 		wg.Add(1)
 		go func() {
 			defer wg.Done()
 			for j := range jobs {
+				if j.x != nil {
+					j.x()
+					continue
+				}
 				if j.lc != nil {
 					runListener(ctx, j.lc)
 					continue
@@ -180,6 +195,39 @@ func Run(ctx *core.Ctx) {
 			}
 		}()
 	}
+	// connections of every kind, every listener stacking, interrupted I/O (builder.go, stack.go, cut.go,
+	// pxcut.go), shuffled and spread over the rounds
+	nBuilder, nStack, nCut, nPx := ctx.N(120, 1000), ctx.N(70, 600), ctx.N(70, 600), ctx.N(50, 400)
+	for i := 0; i < nBuilder; i++ {
+		c := genBuilder(ctx.Rng.Sub())
+		if i == 0 {
+			ctx.Sample(c)
+		}
+		extras = append(extras, func() { runBuilder(ctx, c) })
+	}
+	for i := 0; i < nStack; i++ {
+		c := genStack(ctx.Rng.Sub())
+		if i == 0 {
+			ctx.Sample(c)
+		}
+		extras = append(extras, func() { runStack(ctx, c) })
+	}
+	for i := 0; i < nCut; i++ {
+		c := genCut(ctx.Rng.Sub())
+		if i == 0 {
+			ctx.Sample(c)
+		}
+		extras = append(extras, func() { runCut(ctx, c) })
+	}
+	for i := 0; i < nPx; i++ {
+		c := genPx(ctx.Rng.Sub())
+		if i == 0 {
+			ctx.Sample(c)
+		}
+		extras = append(extras, func() { runPx(ctx, c) })
+	}
+	core.Shuffle(ctx.Rng.Sub(), extras)
+	xi := 0
 	li := 0
 	for i := 0; i < nRounds; i++ {
 		r := ctx.Rng.Sub()
@@ -202,6 +250,10 @@ func Run(ctx *core.Ctx) {
 			}
 			jobs <- job{lc: lc}
 			li++
+		}
+		for xi*nRounds < (i+1)*len(extras) {
+			jobs <- job{x: extras[xi]}
+			xi++
 		}
 	}
 	close(jobs)
@@ -252,6 +304,30 @@ func replayWith(ctx *core.Ctx, pool *worldPool, raw json.RawMessage) {
 	}
 	json.Unmarshal(raw, &k)
 	switch k.Kind {
+	case "builder":
+		var c builderCase
+		if err := json.Unmarshal(raw, &c); err != nil {
+			core.Fatalf("C13: bad builder case: %v", err)
+		}
+		runBuilder(ctx, &c)
+	case "stack":
+		var c stackCase
+		if err := json.Unmarshal(raw, &c); err != nil {
+			core.Fatalf("C13: bad stack case: %v", err)
+		}
+		runStack(ctx, &c)
+	case "cut":
+		var c cutCase
+		if err := json.Unmarshal(raw, &c); err != nil {
+			core.Fatalf("C13: bad cut case: %v", err)
+		}
+		runCut(ctx, &c)
+	case "proxy-cut":
+		var c pxCase
+		if err := json.Unmarshal(raw, &c); err != nil {
+			core.Fatalf("C13: bad proxy-cut case: %v", err)
+		}
+		runPx(ctx, &c)
 	case "listener":
 		var lc listenerCase
 		if err := json.Unmarshal(raw, &lc); err != nil {
